@@ -79,22 +79,27 @@ C17_ModelConsistent == \A c \in Classes : (\E ft \in FieldTypes : Alters(c, ft))
 
 \* ------------------------------------------------------------------ Part 2: expressions and validation
 \* values are tagged (TLC cannot compare integers with booleans): [t |-> "int", v |-> n] | [t |-> "bool", v |-> b] | Err
-IntV(n) == [t |-> "int", v |-> n]
-BoolV(b) == [t |-> "bool", v |-> IF b THEN 1 ELSE 0]      \* (all payloads are integers: TLC cannot compare 0 with FALSE)
-Err == [t |-> "err", v |-> 0]
+IntV(n) == [t |-> "int", v |-> n, s |-> ""]
+StrV(x) == [t |-> "str", v |-> 0, s |-> x]          \* strings carry their text in a separate field
+BoolV(b) == [t |-> "bool", v |-> IF b THEN 1 ELSE 0, s |-> ""]      \* (all payloads are integers: TLC cannot compare 0 with FALSE)
+Err == [t |-> "err", v |-> 0, s |-> ""]
+Oos == [t |-> "oos", v |-> 0, s |-> ""]     \* outside the modelled fragment (ordering of strings): such cases are not exported
 \* expression trees: [op, l, r] | [op |-> "lit", v] | [op |-> "ph", v |-> key] (placeholder, substituted before evaluation)
 RECURSIVE Eval(_, _)
 Eval(e, cfg) ==
   IF e.op = "lit" THEN e.v
   ELSE IF e.op = "ph" THEN cfg[e.k]
   ELSE LET a == Eval(e.l, cfg)  b == Eval(e.r, cfg) IN
-       IF a.t = "err" \/ b.t = "err" THEN Err
-       ELSE CASE e.op \in {"+", "-", "*", ">"} ->
+       IF a.t = "oos" \/ b.t = "oos" THEN Oos
+       ELSE IF a.t = "err" \/ b.t = "err" THEN Err
+       ELSE CASE e.op = "+" /\ a.t = "str" /\ b.t = "str" -> StrV(a.s \o b.s)           \* string concatenation
+              [] e.op = ">" /\ a.t = "str" /\ b.t = "str" -> Oos                          \* the library orders strings; TLA+ does not
+              [] e.op \in {"+", "-", "*", ">"} ->
                    IF a.t = "int" /\ b.t = "int"
                    THEN (CASE e.op = "+" -> IntV(a.v + b.v) [] e.op = "-" -> IntV(a.v - b.v) [] e.op = "*" -> IntV(a.v * b.v)
                            [] e.op = ">" -> BoolV(a.v > b.v))
                    ELSE Err
-              [] e.op = "==" -> IF a.t = b.t THEN BoolV(a.v = b.v) ELSE Err
+              [] e.op = "==" -> IF a.t = b.t THEN BoolV(a.v = b.v /\ a.s = b.s) ELSE Err
               [] e.op \in {"&&", "||"} ->
                    IF a.t = "bool" /\ b.t = "bool" THEN BoolV(IF e.op = "&&" THEN a.v = 1 /\ b.v = 1 ELSE a.v = 1 \/ b.v = 1) ELSE Err
 \* constraints of the validate argument on an integer value
@@ -104,4 +109,6 @@ Violates(v, c) ==
     [] c.k = "max" -> v > c.n
     [] c.k = "eq"  -> v # c.n
 ValidationFails(v, cs) == \E i \in 1..Len(cs) : Violates(v, cs[i])
+\* C09: a configuration value that is missing: required -> start-up error (never a panic), optional -> the field keeps its zero value
+MissingOutcome(required) == IF required THEN "err" ELSE "zero"
 =============================================================================
